@@ -330,6 +330,13 @@ func (k c07) spelling(c *mon.Ctx, workload string, i int64) string {
 	return ""
 }
 
+// c07Prev is the last well-formed literal accepted (its node keeps whatever
+// memory the parser gave the value).
+var c07Prev struct {
+	node     *gt.T
+	want, sp string
+}
+
 // rhs parses `x = <sp>` and returns the single right-hand node.
 func c07Parse(sp string) (node *gt.T, obs drive.ParseObs, note string) {
 	src := "x = " + sp
@@ -357,6 +364,16 @@ func (k c07) Run(c *mon.Ctx, workload string, i int64) {
 		class, want := classifyString(sp, style)
 		node, obs, note := c07Parse(sp)
 		c.Eval(1)
+		// the literal accepted by the PREVIOUS parse still denotes its value
+		// (a tree stays valid after the parser has moved on to other texts)
+		if c07Prev.node != nil {
+			if c07Prev.node.S != c07Prev.want {
+				c.Violate("literal-changed-by-a-later-parse", fmt.Sprintf("spelling %q parsed to %q; after parsing %q its node reads %q", c07Prev.sp, c07Prev.want, sp, c07Prev.node.S),
+					map[string]any{"first": fmt.Sprintf("%q", c07Prev.sp), "then": fmt.Sprintf("%q", sp)})
+			}
+			c.Count("literals_rechecked_after_the_next_parse", 1)
+			c07Prev.node = nil
+		}
 		if strings.ContainsAny(sp[1:len(sp)-1], "\\\"'`") || len(sp) != utf8.RuneCountInString(sp) {
 			c.Nontrivial(sp)
 		}
@@ -381,6 +398,8 @@ func (k c07) Run(c *mon.Ctx, workload string, i int64) {
 				c.Violate("string-literal-wrong-kind", fmt.Sprintf("spelling %q parsed as %s", sp, node.Dump()), cs)
 			case node.S != want:
 				c.Violate("string-literal-wrong-value", fmt.Sprintf("spelling %q must denote %q, parsed value is %q", sp, want, node.S), cs)
+			default:
+				c07Prev.node, c07Prev.want, c07Prev.sp = node, want, sp
 			}
 			if c.WantSample() && strings.Contains(sp, "\\") && obs.Err == nil && node != nil {
 				c.Sample(map[string]any{"spelling": fmt.Sprintf("%q", sp), "parsed_value": fmt.Sprintf("%q", node.S), "oracle": fmt.Sprintf("%q", want)})
